@@ -1522,6 +1522,8 @@ pub fn build_subtrees<H, const SHARD_HEIGHT: u8>(
 where
     H: Clone + PartialEq + Hashable + Send + Sync,
 {
+    #[cfg(zcash_librustzcash_verif)]
+    let chunk_size = crate::verif_hooks::knob("subtree_chunk_size", chunk_size);
     commitments
         .par_chunks_mut(chunk_size)
         .enumerate()
